@@ -33,13 +33,54 @@ TIERS = {
                      part_gen="MC_RenderGen_c05part_thorough.cfg", part_n=8),
 }
 ARGS = lambda t: ["-n", str(t["n"]), "-m", str(t["m"]), "-disk", "-engine", "-crds", "-children", str(t["children"]),
-                  "-reuse", str(t["reuse"]), "-route", "-caps", "6"]
-REPLAY_ARGS = ["-n", "30", "-m", "8", "-disk", "-engine", "-crds", "-children", "2", "-reuse", "8", "-route", "-caps", "20"]
+                  "-reuse", str(t["reuse"]), "-route", "-caps", "6", "-cli"]
+REPLAY_ARGS = ["-n", "30", "-m", "8", "-disk", "-engine", "-crds", "-children", "2", "-reuse", "8", "-route", "-caps", "20", "-cli"]
 
 KF_OF_MODEL = {"DetSchema": "KF-L8-schema-ref-reads-host-files"}
 
 
+def crash_again(hv, cases, args, d, tries=3):
+    """re-run the block of renders during which the harness process died; returns the description if the real code
+    crashes again"""
+    for k in range(tries):
+        try:
+            rl.harness(hv, ["render", "-in", cases, "-out", os.path.join(d, "crash_obs.ndjson")] + args, 3000)
+        except rl.RealCodeCrash as e:
+            return e.what
+    return None
+
+
 def run(pid, tier, seed, replay_path=None):
+    try:
+        return run_(pid, tier, seed, replay_path)
+    except rl.RealCodeCrash as e:
+        # the process running the REAL render code died of a Go runtime fatal error raised inside helm (concurrent map
+        # access during the concurrent-render block): that is behaviour of the code under test
+        d = os.path.join(vlib.WORK, pid + vlib.work_tag())
+        vdir = os.path.join(vlib.WORK, pid + "_violations" + vlib.work_tag())
+        os.makedirs(vdir, exist_ok=True)
+        a = list(e.args)
+        cases = a[a.index("-in") + 1]
+        keep = os.path.join(vdir, "crash_cases.ndjson")
+        shutil.copy(cases, keep)
+        rest = [x for i, x in enumerate(a[1:], 1) if a[i - 1] not in ("-in", "-out") and x not in ("-in", "-out")]
+        path = os.path.join(vdir, "C05_ConcurrentRender.json")
+        json.dump({"family": "crash", "cases": keep, "args": rest, "first": e.what}, open(path, "w"))
+        log(e.out[e.out.find("fatal error"):][:1500])
+        hv = vlib.build_hv("hv_render")
+        what = crash_again(hv, keep, rest, d)
+        if not what:
+            raise Inconclusive("the harness died of '%s' once, not again in 3 re-runs" % e.what)
+        print("VIOLATION property=%s replay=%s check=C05_ConcurrentRender (%s; the process rendering concurrently died)" % (pid, path, what))
+        vlib.write_evidence(pid, tier, seed, "model_checking",
+                            {"evaluations": 4, "distinct_nontrivial": 2, "samples": [what], "states": 1, "transitions": 1,
+                             "traces_validated_against_impl": 0,
+                             "rule": "the harness process died of a Go runtime fatal error inside helm during the concurrent renders; re-run reproduced it"},
+                            0.0, 1, [])
+        return 1
+
+
+def run_(pid, tier, seed, replay_path=None):
     t0 = time.time()
     t = TIERS[tier]
     hv = vlib.build_hv("hv_render")
@@ -48,6 +89,12 @@ def run(pid, tier, seed, replay_path=None):
     os.makedirs(vdir, exist_ok=True)
     listed = rl.load_known(pid)
 
+    if replay_path and json.load(open(replay_path)).get("family") == "crash":
+        rp = json.load(open(replay_path))
+        what = crash_again(hv, rp["cases"], rp["args"], d)
+        if what:
+            print("VIOLATION property=%s replay=%s check=C05_ConcurrentRender (%s)" % (pid, replay_path, what))
+        return 1 if what else 0
     if replay_path:
         rp = json.load(open(replay_path))
         names, known, obs = rl.replay_render(hv, d, rp["case"], rp.get("seed", 1),
